@@ -11,6 +11,8 @@ import (
 	"go/ast"
 	"go/token"
 	"go/types"
+
+	"golang.org/x/tools/go/cfg"
 )
 
 func init() {
@@ -272,4 +274,358 @@ func init() {
 func identOf(e ast.Expr) *ast.Ident {
 	id, _ := ast.Unparen(e).(*ast.Ident)
 	return id
+}
+
+// ---- C14-e: parallel indexing is length-guarded ----
+
+func init() {
+	register("C14",
+		"C14-e (FLOW): in package query, inside `for i := range A` (or a counted loop bounded by len(A)) every index expression B[i] on a different slice B is reached only over an edge that establishes len(A) <= len(B) — the true edge of a conjunct `len(A) == len(B)` / `<=` / `<`, the false edge of a disjunct `len(A) != len(B)` / `>` / `>=` — or after B = make(…, len(A)), or both have a constant length by construction: Parse must not panic with an index out of range when two lists that usually have the same length do not.",
+		func(p *Prog, r *Res) {
+			const rule = "C14-e parallel-index-guarded"
+			r.Rule(rule + ": B[i] inside a loop over A needs a length relation between A and B")
+			n := 0
+			for _, f := range p.FnList {
+				if f.Short != "query" || f.Body() == nil {
+					continue
+				}
+				info := f.Pkg.TypesInfo
+				var fl *Flow
+				inspectShallow(f.Body(), func(x ast.Node) bool {
+					rs, ok := x.(*ast.RangeStmt)
+					if !ok || rs.Key == nil {
+						return true
+					}
+					if _, isSl := info.TypeOf(rs.X).Underlying().(*types.Slice); !isSl {
+						return true
+					}
+					iv := identObj(info, rs.Key)
+					if iv == nil {
+						return true
+					}
+					aStr := exprString(p.Fset, ast.Unparen(rs.X))
+					inspectShallow(rs.Body, func(y ast.Node) bool {
+						ix, ok := y.(*ast.IndexExpr)
+						if !ok || !sameObj(info, ix.Index, iv) {
+							return true
+						}
+						if _, isSl := info.TypeOf(ix.X).Underlying().(*types.Slice); !isSl {
+							return true
+						}
+						bStr := exprString(p.Fset, ast.Unparen(ix.X))
+						if bStr == aStr {
+							return true
+						}
+						n++
+						key := fmt.Sprintf("%s %s[%s] inside range %s", f.Key(), bStr, iv.Name(), aStr)
+						if fl == nil {
+							fl = p.Flow(f)
+						}
+						// the same expression: same text and same root variable (a, b are reused names in sibling scopes)
+						sameAs := func(e ast.Expr, ref ast.Expr, refStr string) bool {
+							if exprString(p.Fset, ast.Unparen(e)) != refStr {
+								return false
+							}
+							r1, r2 := rootIdentOf(e), rootIdentOf(ref)
+							if r1 == nil || r2 == nil {
+								return r1 == nil && r2 == nil
+							}
+							o1, o2 := info.Uses[r1], info.Uses[r2]
+							if o1 == nil {
+								o1 = info.Defs[r1]
+							}
+							if o2 == nil {
+								o2 = info.Defs[r2]
+							}
+							return o1 == o2
+						}
+						lenOf := func(e ast.Expr) string {
+							c, ok := ast.Unparen(e).(*ast.CallExpr)
+							if !ok || !isBuiltin(info, c, "len") || len(c.Args) != 1 {
+								return ""
+							}
+							if sameAs(c.Args[0], rs.X, aStr) {
+								return "A"
+							}
+							if sameAs(c.Args[0], ix.X, bStr) {
+								return "B"
+							}
+							return ""
+						}
+						// does taking the given edge of condition c establish len(A) <= len(B)?
+						establishes := func(c ast.Expr, trueEdge bool) bool {
+							be, ok := ast.Unparen(c).(*ast.BinaryExpr)
+							if !ok {
+								return false
+							}
+							l, rr := lenOf(be.X), lenOf(be.Y)
+							op := be.Op
+							if l == "B" && rr == "A" {
+								// mirror to A op B
+								switch op {
+								case token.LSS:
+									op = token.GTR
+								case token.GTR:
+									op = token.LSS
+								case token.LEQ:
+									op = token.GEQ
+								case token.GEQ:
+									op = token.LEQ
+								}
+							} else if !(l == "A" && rr == "B") {
+								return false
+							}
+							if trueEdge {
+								return op == token.EQL || op == token.LEQ || op == token.LSS
+							}
+							return op == token.NEQ || op == token.GTR || op == token.GEQ
+						}
+						// B = make([]T, len(A)) (or a literal/copy sized by A) makes B as long as A
+						relates := func(nd ast.Node) bool {
+							as, ok := nd.(*ast.AssignStmt)
+							if !ok {
+								return false
+							}
+							for i, l := range as.Lhs {
+								if !sameAs(l, ix.X, bStr) || i >= len(as.Rhs) {
+									continue
+								}
+								mk, ok := ast.Unparen(as.Rhs[i]).(*ast.CallExpr)
+								if ok && isBuiltin(info, mk, "make") && len(mk.Args) >= 2 && lenOf(mk.Args[1]) == "A" {
+									return true
+								}
+							}
+							return false
+						}
+						// B has a constant length k by construction and the loop runs where len(A) == k
+						if k, ok := constLenOfExpr(p, f, ix.X, map[types.Object]bool{}); ok {
+							if ka, okA := constLenOfExpr(p, f, rs.X, map[types.Object]bool{}); okA && ka <= k {
+								r.Ok(rule, key, p.Pos(ix), fmt.Sprintf("%s always has %d elements and %s always has %d (every assignment is a literal or make with that constant length)", aStr, ka, bStr, k))
+								return true
+							}
+							if ka, ok2 := lenPinnedTo(p, f, rs, aStr); ok2 && ka <= k {
+								r.Ok(rule, key, p.Pos(ix), fmt.Sprintf("%s always has %d elements (every assignment to it is a %d-element literal, make(…, %d) or a value of that kind) and the loop runs where len(%s) == %d", bStr, k, k, k, aStr, ka))
+								return true
+							}
+						}
+						pt, okp := fl.PointOf(ix)
+						if !okp {
+							r.Undecided(rule, key, p.Pos(ix), "index expression not found in the CFG")
+							return true
+						}
+						target := fl.node(pt)
+						gfl := p.Flow(f)
+						gfl.EdgeOK = func(b *cfg.Block, succ int) bool {
+							if len(b.Succs) != 2 || len(b.Nodes) == 0 {
+								return true
+							}
+							cond, ok := b.Nodes[len(b.Nodes)-1].(ast.Expr)
+							if !ok {
+								return true
+							}
+							if succ == 0 {
+								for _, c := range conjuncts(cond) {
+									if establishes(c, true) {
+										return false
+									}
+								}
+							} else {
+								for _, c := range disjuncts(cond) {
+									if establishes(c, false) {
+										return false
+									}
+								}
+							}
+							return true
+						}
+						res := gfl.Reach([]Pt{gfl.Entry()}, func(nd ast.Node) bool { return nd == target }, relates)
+						r.Check(!res.Found, rule, key, p.Pos(ix), "a length relation between "+aStr+" and "+bStr+" lies on every path to the index", "B[i] is evaluated for every i < len("+aStr+") without anything relating that length to len("+bStr+") ("+fl.traceString(res)+"): when the second list is shorter Parse panics with an index out of range")
+						return true
+					})
+					return true
+				})
+			}
+			r.Note("%s: %d parallel index expressions in package query", rule, n)
+			r.Floor(rule, 1, n)
+		})
+}
+
+// constLenOfExpr: e denotes a slice-typed struct field (x.F) every assignment to which, anywhere in the package, has a
+// value of the same constant length: a composite literal with k elements, make(T, k) with constant k, or another
+// expression with constant length k (followed through fields, depth-limited by seen).
+func constLenOfExpr(p *Prog, f *Fn, e ast.Expr, seen map[types.Object]bool) (int, bool) {
+	info := f.Pkg.TypesInfo
+	if lo := identObj(info, e); lo != nil {
+		// a local variable: every assignment in its function is make(T, k) / a k-element literal
+		k, any, okAll := -1, false, true
+		ast.Inspect(f.Root().Body(), func(x ast.Node) bool {
+			as, ok := x.(*ast.AssignStmt)
+			if !ok || len(as.Lhs) != len(as.Rhs) {
+				return true
+			}
+			for i, l := range as.Lhs {
+				if !sameObj(info, l, lo) {
+					continue
+				}
+				any = true
+				n, good := -1, false
+				switch v := ast.Unparen(as.Rhs[i]).(type) {
+				case *ast.CompositeLit:
+					n, good = len(v.Elts), true
+				case *ast.CallExpr:
+					if isBuiltin(info, v, "make") && len(v.Args) == 2 {
+						if tv, ok := info.Types[v.Args[1]]; ok && tv.Value != nil {
+							if _, err := fmt.Sscan(tv.Value.ExactString(), &n); err == nil {
+								good = true
+							}
+						}
+					}
+				}
+				if !good || (k != -1 && k != n) {
+					okAll = false
+				}
+				k = n
+			}
+			return true
+		})
+		if any && okAll && k >= 0 {
+			return k, true
+		}
+		return 0, false
+	}
+	se, ok := ast.Unparen(e).(*ast.SelectorExpr)
+	if !ok {
+		return 0, false
+	}
+	fld, ok := info.Uses[se.Sel].(*types.Var)
+	if !ok || !fld.IsField() {
+		return 0, false
+	}
+	return constLenOfField(p, f.Short, fld, seen)
+}
+
+func constLenOfField(p *Prog, pkgShort string, fld *types.Var, seen map[types.Object]bool) (int, bool) {
+	if seen[fld] {
+		return -1, true // self reference: neutral
+	}
+	seen[fld] = true
+	k := -1
+	okAll, any := true, false
+	valueLen := func(g *Fn, v ast.Expr) (int, bool) {
+		ginfo := g.Pkg.TypesInfo
+		v = ast.Unparen(v)
+		switch x := v.(type) {
+		case *ast.CompositeLit:
+			return len(x.Elts), true
+		case *ast.CallExpr:
+			if isBuiltin(ginfo, x, "make") && len(x.Args) >= 2 {
+				if tv, ok := ginfo.Types[x.Args[1]]; ok && tv.Value != nil {
+					var n int
+					fmt.Sscan(tv.Value.ExactString(), &n)
+					return n, true
+				}
+			}
+			return 0, false
+		case *ast.SelectorExpr:
+			if fv, ok := ginfo.Uses[x.Sel].(*types.Var); ok && fv.IsField() {
+				return constLenOfField(p, pkgShort, fv, seen)
+			}
+		case *ast.Ident:
+			return constLenOfExpr(p, g, x, seen)
+		}
+		return 0, false
+	}
+	note := func(n int, ok bool) {
+		any = true
+		if !ok {
+			okAll = false
+			return
+		}
+		if n == -1 {
+			return
+		}
+		if k == -1 {
+			k = n
+		} else if k != n {
+			okAll = false
+		}
+	}
+	for _, g := range p.FnList {
+		if g.Short != pkgShort || g.Body() == nil {
+			continue
+		}
+		ginfo := g.Pkg.TypesInfo
+		inspectShallow(g.Body(), func(x ast.Node) bool {
+			switch s := x.(type) {
+			case *ast.AssignStmt:
+				for i, l := range s.Lhs {
+					if ls, ok := ast.Unparen(l).(*ast.SelectorExpr); ok && ginfo.Uses[ls.Sel] == types.Object(fld) && len(s.Rhs) == len(s.Lhs) {
+						note(valueLen(g, s.Rhs[i]))
+					}
+				}
+			case *ast.KeyValueExpr:
+				if id, ok := s.Key.(*ast.Ident); ok && ginfo.Uses[id] == types.Object(fld) {
+					note(valueLen(g, s.Value))
+				}
+			}
+			return true
+		})
+	}
+	if !any || !okAll || k < 0 {
+		return 0, false
+	}
+	return k, true
+}
+
+// lenPinnedTo: the range statement rs over A lies in a `case k:` clause of `switch len(A)` or in the body of an if
+// whose condition has the conjunct len(A) == k.
+func lenPinnedTo(p *Prog, f *Fn, rs *ast.RangeStmt, aStr string) (int, bool) {
+	info := f.Pkg.TypesInfo
+	res, found := 0, false
+	isLenA := func(e ast.Expr) bool {
+		c, ok := ast.Unparen(e).(*ast.CallExpr)
+		return ok && isBuiltin(info, c, "len") && len(c.Args) == 1 && exprString(p.Fset, c.Args[0]) == aStr
+	}
+	constOf := func(e ast.Expr) (int, bool) {
+		if tv, ok := info.Types[e]; ok && tv.Value != nil {
+			var n int
+			if _, err := fmt.Sscan(tv.Value.ExactString(), &n); err == nil {
+				return n, true
+			}
+		}
+		return 0, false
+	}
+	inspectParents(f.Body(), func(x ast.Node, parents []ast.Node) bool {
+		if x != ast.Node(rs) {
+			return true
+		}
+		for i, par := range parents {
+			switch s := par.(type) {
+			case *ast.SwitchStmt:
+				if s.Tag != nil && isLenA(s.Tag) && i+2 < len(parents) {
+					if cc, ok := parents[i+2].(*ast.CaseClause); ok && len(cc.List) == 1 {
+						if n, ok := constOf(cc.List[0]); ok {
+							res, found = n, true
+						}
+					}
+				}
+			case *ast.IfStmt:
+				var child ast.Node = x
+				if i+1 < len(parents) {
+					child = parents[i+1]
+				}
+				if child == ast.Node(s.Body) {
+					for _, c := range conjuncts(s.Cond) {
+						if be, ok := ast.Unparen(c).(*ast.BinaryExpr); ok && be.Op == token.EQL && isLenA(be.X) {
+							if n, ok := constOf(be.Y); ok {
+								res, found = n, true
+							}
+						}
+					}
+				}
+			}
+		}
+		return false
+	})
+	return res, found
 }
